@@ -224,6 +224,14 @@ impl ColumnBuffer {
     }
 
     fn push_present(&mut self, new_present: Option<&[u8]>, count: usize) {
+        if self.present.is_none() && new_present.is_some() {
+            // First chunk that carries a null map: every value pushed so far is present
+            let mut present = vec![0xff; self.length / 8];
+            for i in ((self.length / 8) * 8)..self.length {
+                BitVecMut::set(&mut present, i);
+            }
+            self.present = Some(present);
+        }
         if let Some(all_present) = self.present.as_mut() {
             if let Some(new_present) = new_present {
                 for i in 0..count {
